@@ -16,6 +16,10 @@ pub struct Case {
 	pub embed: Option<Embed>,
 	pub abs: bool,
 	pub segs: Vec<String>,
+	/// `Some(n)`: the FIRST segment stands for itself repeated n times (inputs beyond 4 GiB; judged by a
+	/// lean dedicated routine, not by the general model)
+	#[serde(default)]
+	pub repeat_first: Option<usize>,
 }
 
 pub struct C09;
@@ -171,6 +175,41 @@ both_families! {
 	}
 }
 
+/// Inputs beyond 4 GiB (offsets and lengths that no longer fit 32 bits), judged directly: the path is
+/// `X/b/../c/./d` with X one segment of `n` bytes; normalisation keeps X, c, d.
+fn big_probe(fam: Fam, unit: &str, times: usize, abs: bool) -> Result<(), Failure> {
+	let mut text = String::with_capacity(unit.len() * times + 16);
+	if abs {
+		text.push('/');
+	}
+	for _ in 0..times {
+		text.push_str(unit);
+	}
+	let big = text.len() - abs as usize;
+	text.push_str("/b/../c/./d");
+	macro_rules! go {
+		($Path:ty, $PathBuf:ty) => {{
+			let p = <$Path>::new(text.as_str()).map_err(|_| Failure::new("big:rejected", format!("a path of {} bytes is rejected", text.len())))?;
+			let lens: Vec<usize> = p.normalized_segments().map(|s| s.as_str().len()).collect();
+			ensure!(lens == vec![big, 1, 1], "big:normalized_segments", "path of {} bytes ({}-byte first segment + \"/b/../c/./d\"): normalized_segments() yields segments of lengths {:?}, expected [{}, 1, 1]", text.len(), big, lens, big);
+			let raw: Vec<usize> = p.segments().map(|s| s.as_str().len()).collect();
+			ensure!(raw == vec![big, 1, 2, 1, 1, 1], "big:segments", "path of {} bytes: segments() yields lengths {:?}", text.len(), raw);
+			ensure!(p.segment_count() == 6, "big:segment_count", "path of {} bytes: segment_count() = {}", text.len(), p.segment_count());
+			let n = p.normalized();
+			ensure!(n.as_str().len() == big + abs as usize + 4 && n.as_str().ends_with("/c/d"), "big:normalized", "path of {} bytes: normalized() has {} bytes and ends {:?}", text.len(), n.as_str().len(), &n.as_str()[n.as_str().len().saturating_sub(8)..]);
+			drop(n);
+			let mut b = <$PathBuf>::new(std::mem::take(&mut text).into()).map_err(|_| Failure::new("big:rejected", "owned path rejected".to_string()))?;
+			b.normalize();
+			ensure!(b.as_str().len() == big + abs as usize + 4 && b.as_str().ends_with("/c/d"), "big:normalize-in-place", "in-place normalize of a path beyond 4 GiB leaves {} bytes ending {:?}", b.as_str().len(), &b.as_str()[b.as_str().len().saturating_sub(8)..]);
+		}};
+	}
+	match fam {
+		Fam::Uri => go!(iref::uri::Path, iref::uri::PathBuf),
+		Fam::Iri => go!(iref::iri::Path, iref::iri::PathBuf),
+	}
+	Ok(())
+}
+
 impl Prop for C09 {
 	type Case = Case;
 	const ID: &'static str = "C09";
@@ -187,7 +226,7 @@ impl Prop for C09 {
 		gen::fam()
 			.prop_flat_map(|f| {
 				let o = Opt::new(f).with_nonutf8(true);
-				(embed(o), any::<bool>(), prop_oneof![1 => gen::segments(o), 1 => gen::dotty_segments(o)]).prop_map(move |(embed, abs, segs)| Case { fam: f, embed, abs, segs })
+				(embed(o), any::<bool>(), prop_oneof![1 => gen::segments(o), 1 => gen::dotty_segments(o)]).prop_map(move |(embed, abs, segs)| Case { fam: f, embed, abs, segs, repeat_first: None })
 			})
 			.boxed()
 	}
@@ -199,6 +238,18 @@ impl Prop for C09 {
 			}).unwrap_or(true);
 		if case.fam == Fam::Uri && !ascii {
 			cx.class("skipped-nonascii-uri");
+			return Ok(());
+		}
+		if let Some(times) = case.repeat_first {
+			let unit = case.segs.first().cloned().unwrap_or_else(|| "a".into());
+			ensure!(!unit.is_empty() && !unit.contains('/') && unit.len().saturating_mul(times) <= (5usize << 30), "harness", "repeat_first out of range");
+			crate::engine::grace(900);
+			let r = big_probe(case.fam, &unit, times, case.abs);
+			crate::engine::grace_end();
+			r?;
+			cx.class("beyond-4GiB");
+			cx.nt();
+			cx.obs(5);
 			return Ok(());
 		}
 		let judged = by_fam!(case.fam, check(case, cx))?;
@@ -223,6 +274,14 @@ impl Prop for C09 {
 	}
 
 	fn enumerate(tier: Tier, shard: usize, nshards: usize, f: &mut dyn FnMut(Case, bool) -> bool) -> Vec<&'static str> {
+		// one path beyond 4 GiB per family (thorough tier only: ~9 GiB of memory, a minute)
+		if tier == Tier::Thorough && shard == 0 {
+			for (fam, abs) in [(Fam::Uri, true), (Fam::Iri, false)] {
+				if !f(Case { fam, embed: None, abs, segs: vec!["0123456789abcdef".into()], repeat_first: Some((1usize << 28) + 1) }, true) {
+					return vec![];
+				}
+			}
+		}
 		// huge segments, each followed on the same thread by a small path
 		{
 			let mut gi = 0usize;
@@ -235,7 +294,7 @@ impl Prop for C09 {
 					}
 					let fam = if gi % 2 == 0 { Fam::Uri } else { Fam::Iri };
 					let e = if fam == Fam::Iri { Some(Embed { full: true, scheme: Some("s".into()), authority: None, query: Some("q".into()), fragment: None }) } else { None };
-					for c in [Case { fam, embed: e.clone(), abs, segs }, Case { fam, embed: e.clone(), abs: false, segs: vec!["x".into(), ".".into(), "y".into(), "..".into(), "z".into()] }, Case { fam, embed: None, abs: true, segs: vec!["a".into(), "..".into(), "b".into(), ".".into()] }] {
+					for c in [Case { fam, embed: e.clone(), abs, segs, repeat_first: None }, Case { fam, embed: e.clone(), abs: false, segs: vec!["x".into(), ".".into(), "y".into(), "..".into(), "z".into()], repeat_first: None }, Case { fam, embed: None, abs: true, segs: vec!["a".into(), "..".into(), "b".into(), ".".into()], repeat_first: None }] {
 						if !f(c, true) {
 							return vec![];
 						}
@@ -271,7 +330,7 @@ impl Prop for C09 {
 							if i % nshards != shard {
 								continue;
 							}
-							if !f(Case { fam, embed: e.clone(), abs, segs: s.clone() }, true) {
+							if !f(Case { fam, embed: e.clone(), abs, segs: s.clone(), repeat_first: None }, true) {
 								return vec![];
 							}
 						}
